@@ -276,58 +276,7 @@ func runC03(c *Ctx) {
 		c.verdict(okArg, c.nm(fu)+" | written message is an entry of the (pruned) headers map", c.P.Pos(fu.Pos()), "argument derives from the headers map", "writeCFHeadersMsg argument is not taken from the pruned headers map", c.ats(writes)...)
 	})
 
-	c.rule("C03.O2", "rollBackToHeight: in every iteration the filter-header store is rolled back (when bs.Height <= regHeight, and successfully) before the block-header store", func() {
-		fn := c.fn(fnRollBack)
-		fr := find(fn, callTo(fhs("RollbackLastBlock")))
-		br := find(fn, callTo(bhs("RollbackLastBlock")))
-		stampH := c.field("headerfs", "BlockStamp", "Height")
-		isReg := func(v ssa.Value) bool {
-			return ir.DerivesFrom(v, func(x ssa.Value) bool {
-				in, ok := x.(ssa.Instruction)
-				return ok && (callTo(fhs("ChainTip"))(in) || callTo(fhs("RollbackLastBlock"))(in))
-			})
-		}
-		// condition bs.Height <= regHeight: as "regHeight < bs.Height is false"
-		g, odd := lessFalse("regHeight < bs.Height", fn, isReg, func(v ssa.Value) bool { return loadsField(stampH)(v) && !isReg(v) })
-		if len(odd) > 0 {
-			c.fail(c.nm(fn)+" | filter rollback condition shape", c.P.Pos(fn.Pos()), "bs.Height is compared with regHeight by an operator other than `<=`/`>`: "+join(odd)+" (a filter header at exactly regHeight must be rolled back)")
-		}
-		// with the "filter store not this far" edge removed, the block rollback
-		// must be preceded by the filter rollback
-		cut := ir.Cut{}
-		for _, s := range g.sites {
-			cut[s.br.Other()] = true
-		}
-		construct := c.nm(fn) + " | FilterHeaderStore.RollbackLastBlock precedes BlockHeaderStore.RollbackLastBlock when bs.Height <= regHeight"
-		if len(g.sites) < 1 || len(fr) < 1 || len(br) < 1 {
-			c.fail(construct, c.P.Pos(fn.Pos()), fmt.Sprintf("expected the comparison bs.Height <= regHeight (%d found), a filter rollback (%d) and a block rollback (%d)", len(g.sites), len(fr), len(br)))
-		} else {
-			var bad []string
-			isF := callTo(fhs("RollbackLastBlock"))
-			isB := callTo(bhs("RollbackLastBlock"))
-			ir.Walk(fn.Blocks[0], 0, cut, func(in ssa.Instruction) bool {
-				if isF(in) {
-					return false
-				}
-				if isB(in) {
-					bad = append(bad, c.at(in))
-				}
-				return true
-			})
-			c.verdict(len(bad) == 0, construct, c.P.Pos(fn.Pos()), "block rollback unreachable without the filter rollback when the filter store has caught up", "block-header rollback at "+join(bad)+" is reachable without rolling the filter store back first", c.ats(append(fr, br...))...)
-		}
-		c.guarded(fn, errNil("RegFilterHeaders.RollbackLastBlock", fr, 1), 1, "BlockHeaders.RollbackLastBlock", br, 1, gFailEdge)
-		// the filter store is rolled back to the parent of the block removed
-		prevBlock := c.field(pWire, "BlockHeader", "PrevBlock")
-		okArg := len(fr) >= 1
-		for _, f := range fr {
-			a := argsOf(f)
-			if len(a) != 1 || !ir.DerivesFrom(a[0], func(x ssa.Value) bool { return fieldAddrOf(prevBlock)(x) }) {
-				okArg = false
-			}
-		}
-		c.verdict(okArg, c.nm(fn)+" | filter store new tip = PrevBlock of the header being removed", c.P.Pos(fn.Pos()), "RollbackLastBlock(&header.PrevBlock)", "filter store is rolled back to something other than the removed header's PrevBlock", c.ats(fr)...)
-	})
+	c.rule("C03.O2", filterRollbackFirstDoc, func() { c.filterRollbackFirst() })
 
 	c.rule("C03.G4", "VerifyBasicBlockFilter (the arbiter when peers disagree): every output script of every non-coinbase transaction must be matched by the filter, a miss returning an error, and the only exemptions are an empty script and a script whose first byte is OP_RETURN; only the transaction at index 0 is skipped", func() {
 		fn := c.fn("neutrino.VerifyBasicBlockFilter")
@@ -594,6 +543,60 @@ func runC03(c *Ctx) {
 		c.verdict(okH, c.nm(fn)+" | checkpoint height = (index+1) * CFCheckptInterval", c.at(calls[0]), "uint32((i+1)*wire.CFCheckptInterval)", "the height passed to ValidateCFHeader is not (index+1)*1000")
 	})
 
+	c.rule("C03.V3", "peers' checkpoint lists are compared along the longest list: in checkCFCheckptSanity the comparison loop runs up to a running maximum of the list lengths (it is raised to len(list) exactly on the edge len(list) > bound, starting from 0), so a peer cannot hide a false tail behind another peer's shorter list", func() {
+		fn := c.fn("neutrino.checkCFCheckptSanity")
+		isLen := func(v ssa.Value) bool {
+			call, ok := ir.Strip(v).(*ssa.Call)
+			return ok && isBuiltin("len")(call)
+		}
+		// the loop that compares: its bound
+		var cmpLoop *loopForm
+		for _, b := range fn.Blocks {
+			if len(ir.BackEdgesTo(b)) == 0 {
+				continue
+			}
+			lf := loopFormOf(b)
+			if lf.problem == "" && lf.step == 1 && !isLen(lf.bound) {
+				if _, isPhi := ir.Strip(lf.bound).(*ssa.Phi); isPhi {
+					cmpLoop = lf
+				}
+			}
+		}
+		construct := c.nm(fn) + " | comparison bound = max of the list lengths"
+		if cmpLoop == nil {
+			c.fail(construct, c.P.Pos(fn.Pos()), "no counting loop bounded by a computed length found")
+			return
+		}
+		isBound := func(v ssa.Value) bool {
+			// the running bound: a phi from which the loop bound derives
+			p, ok := ir.Strip(v).(*ssa.Phi)
+			if !ok {
+				return false
+			}
+			return ir.DerivesFrom(cmpLoop.bound, func(x ssa.Value) bool { return x == ssa.Value(p) })
+		}
+		g, odd := relGuard("len(list) > bound", fn, isLen, isBound, token.GTR)
+		// the bound starts at 0
+		okInit := false
+		var visit func(v ssa.Value, d int)
+		visit = func(v ssa.Value, d int) {
+			if d > 4 {
+				return
+			}
+			if p, ok := ir.Strip(v).(*ssa.Phi); ok {
+				for _, e := range p.Edges {
+					if k, isC := ir.ConstInt(e); isC && k == 0 {
+						okInit = true
+					} else {
+						visit(e, d+1)
+					}
+				}
+			}
+		}
+		visit(cmpLoop.bound, 0)
+		c.verdict(len(odd) == 0 && len(g.sites) >= 1 && okInit, construct, c.at(cmpLoop.test), "bound raised on len(list) > bound, from 0", "the comparison bound is not the maximum of the list lengths ("+join(odd)+fmt.Sprintf("; %d raising edge(s), starts at 0: %v): lists are compared only along a shorter one", len(g.sites), okInit), c.at(cmpLoop.test))
+	})
+
 	c.rule("C03.W1", "only the tabled functions write or roll back the filter-header store", func() {
 		c.whoMay("FilterHeaderStore.{WriteHeaders,RollbackLastBlock}", callTo(fhs("WriteHeaders"), fhs("RollbackLastBlock")), []string{
 			fnWriteCFH, fnRollBack,
@@ -641,4 +644,76 @@ func (c *Ctx) detectLoop(fn *ssa.Function, tag string, cpMap func(ssa.Value) boo
 	if len(after) > 0 {
 		c.guarded(fn, g, 1, "writeCFHeadersMsg", after, 1, gFailEdge)
 	}
+}
+
+const filterRollbackFirstDoc = "rollBackToHeight: in every iteration the filter-header store is rolled back (when bs.Height <= regHeight, and successfully) before the block-header store"
+
+// filterRollbackFirst: see filterRollbackFirstDoc.
+func (c *Ctx) filterRollbackFirst() {
+	fhs := func(m string) *types.Func { return c.method("headerfs", "FilterHeaderStore", m) }
+	bhs := func(m string) *types.Func { return c.method("headerfs", "BlockHeaderStore", m) }
+	fn := c.fn(fnRollBack)
+	fr := find(fn, callTo(fhs("RollbackLastBlock")))
+	br := find(fn, callTo(bhs("RollbackLastBlock")))
+	stampH := c.field("headerfs", "BlockStamp", "Height")
+	isReg := func(v ssa.Value) bool {
+		return ir.DerivesFrom(v, func(x ssa.Value) bool {
+			in, ok := x.(ssa.Instruction)
+			return ok && (callTo(fhs("ChainTip"))(in) || callTo(fhs("RollbackLastBlock"))(in))
+		})
+	}
+	// condition bs.Height <= regHeight: as "regHeight < bs.Height is false"
+	g, odd := lessFalse("regHeight < bs.Height", fn, isReg, func(v ssa.Value) bool { return loadsField(stampH)(v) && !isReg(v) })
+	if len(odd) > 0 {
+		c.fail(c.nm(fn)+" | filter rollback condition shape", c.P.Pos(fn.Pos()), "bs.Height is compared with regHeight by an operator other than `<=`/`>`: "+join(odd)+" (a filter header at exactly regHeight must be rolled back)")
+	}
+	// with the "filter store not this far" edge removed, the block rollback
+	// must be preceded by the filter rollback
+	cut := ir.Cut{}
+	for _, s := range g.sites {
+		cut[s.br.Other()] = true
+	}
+	construct := c.nm(fn) + " | FilterHeaderStore.RollbackLastBlock precedes BlockHeaderStore.RollbackLastBlock when bs.Height <= regHeight"
+	// the decision is taken per removed block: the comparison is evaluated
+	// inside the rollback loop with the current heights (decided once
+	// before the loop, a filter tip between the fork point and the block
+	// tip is never rolled back)
+	if len(br) >= 1 {
+		h := ir.LoopHeaderOf(br[0].Block())
+		perIter := h != nil && len(g.sites) >= 1
+		for _, s := range g.sites {
+			if ir.LoopHeaderOf(s.site.Block()) != h {
+				perIter = false
+			}
+		}
+		c.verdict(perIter, c.nm(fn)+" | bs.Height <= regHeight is evaluated for every removed block", c.P.Pos(fn.Pos()), "comparison inside the rollback loop", "the decision whether filter headers must be rolled back is not taken inside the rollback loop: filter headers of removed blocks can survive when the filter tip lies between the fork point and the block tip")
+	}
+	if len(g.sites) < 1 || len(fr) < 1 || len(br) < 1 {
+		c.fail(construct, c.P.Pos(fn.Pos()), fmt.Sprintf("expected the comparison bs.Height <= regHeight (%d found), a filter rollback (%d) and a block rollback (%d)", len(g.sites), len(fr), len(br)))
+	} else {
+		var bad []string
+		isF := callTo(fhs("RollbackLastBlock"))
+		isB := callTo(bhs("RollbackLastBlock"))
+		ir.Walk(fn.Blocks[0], 0, cut, func(in ssa.Instruction) bool {
+			if isF(in) {
+				return false
+			}
+			if isB(in) {
+				bad = append(bad, c.at(in))
+			}
+			return true
+		})
+		c.verdict(len(bad) == 0, construct, c.P.Pos(fn.Pos()), "block rollback unreachable without the filter rollback when the filter store has caught up", "block-header rollback at "+join(bad)+" is reachable without rolling the filter store back first", c.ats(append(fr, br...))...)
+	}
+	c.guarded(fn, errNil("RegFilterHeaders.RollbackLastBlock", fr, 1), 1, "BlockHeaders.RollbackLastBlock", br, 1, gFailEdge)
+	// the filter store is rolled back to the parent of the block removed
+	prevBlock := c.field(pWire, "BlockHeader", "PrevBlock")
+	okArg := len(fr) >= 1
+	for _, f := range fr {
+		a := argsOf(f)
+		if len(a) != 1 || !ir.DerivesFrom(a[0], func(x ssa.Value) bool { return fieldAddrOf(prevBlock)(x) }) {
+			okArg = false
+		}
+	}
+	c.verdict(okArg, c.nm(fn)+" | filter store new tip = PrevBlock of the header being removed", c.P.Pos(fn.Pos()), "RollbackLastBlock(&header.PrevBlock)", "filter store is rolled back to something other than the removed header's PrevBlock", c.ats(fr)...)
 }
